@@ -41,6 +41,8 @@ FAULT_KINDS = ["strict_unconvertible", "no_delimiter", "missing_cell", "blank_ro
                "oversize_field"]
 SEPS = [None, None, ",", ";", "|", "\t"]
 NASTY = ["", " ", "x", "a b", " lead", "trail ", "\"", "q\"uo\"te", "'", "l1\nl2", "cr\rx", "crlf\r\ny",
+         # blank physical lines INSIDE a quoted cell (what a line-wise pre-filter would eat)
+         "p1\n\np2", "p1\r\n\r\np2", "\n\nlead", "trail\n\n", "a\r\rb",
          "é", "\U0001d11e", "tab\there", "com,ma", "semi;colon", "pi|pe", "\"\"", "end\n", "\\", "#c", "0",
          # characters str.splitlines() treats as line boundaries but the csv module does not
          "ls\u2028x", "vt\x0bx", "ff\x0cx", "nel\x85x", "fs\x1cx",
@@ -199,6 +201,7 @@ class C16Machine(Machine):
             # that data tools read as a missing value
             base = (r.uri_prefix + "1") if compressing else (r.prefix + d + "1")
             return rng.choice([base + "\n", base + "\r\n", base + "\"q", base + "\tx", base + ",x", base + " ",
+                               base + "\n\nx", base + "\r\n\r\n",
                                "nan", "NA", "None", "<NA>", "NULL"])
         return ""
 
@@ -443,8 +446,8 @@ class C16Machine(Machine):
                 # standardize_identifier (strip a redundant "<prefix><delimiter>", reject some identifiers) -
                 # the bulk functions must go through the same overridable scalar methods
                 class Hooked(c.Converter):
-                    def standardize_identifier(self, prefix, identifier):
-                        ident = identifier.removeprefix(prefix + self.delimiter)
+                    def standardize_identifier(self, standard_prefix, identifier):      # (the documented names)
+                        ident = identifier.removeprefix(standard_prefix + self.delimiter)
                         return None if ident.startswith("bad") else ident
 
                 cls = Hooked
@@ -463,7 +466,23 @@ class C16Machine(Machine):
                 except Exception:  # noqa: BLE001
                     self.setup_failed = True
                     return {"records": 0}
-            self.conv = cls(objs, delimiter=op.get("delimiter", ":"))
+            try:
+                self.conv = cls(objs, delimiter=op.get("delimiter", ":"))
+            except ValueError:
+                # the constructor refuses this record set (say, a CURIE prefix that contains the delimiter):
+                # "for all strict converters" - this is none. The largest prefix of the list that it takes.
+                self.event("record_set_refused_by_constructor")
+                self.conv = None
+                for n in range(len(objs) - 1, -1, -1):
+                    try:
+                        self.conv = cls(objs[:n], delimiter=op.get("delimiter", ":"))
+                        break
+                    except ValueError:
+                        continue
+                if self.conv is None or not self.conv.records:
+                    self.conv = None
+                    self.setup_failed = True
+                    return {"records": 0}
             self.dir = tempfile.mkdtemp(prefix="verif-c16-")
             self.event("setup")
             return {"records": len(op["records"])}
@@ -674,7 +693,7 @@ class C16Machine(Machine):
                         self.fault_nontrivial = True
                         break
             self.note_state(["file", func, "raised", why and why.split(":")[0], first_fail, len(rows)], "file", "raised")
-            return {"raised": True, "why": why, "row": first_fail}
+            return {"raised": True, "why": why and why.split(":")[0], "row": first_fail}
 
         # returned normally
         tolerant = False
